@@ -308,11 +308,18 @@ func regexpNext(sb *strings.Builder, sl *stringLexer, mode Mode) error {
 		switch c {
 		case '!', '^':
 			bsb.WriteByte('^')
+			if filenames {
+				// Not even a negated bracket expression matches a slash.
+				bsb.WriteByte('/')
+			}
 			if c = sl.next(); c == '\x00' {
 				return literalBracket()
 			}
 		}
 		if c == ']' {
+			if bsb.String() == "[^/" {
+				bsb.WriteByte('\\') // no longer first in the class
+			}
 			bsb.WriteByte(']')
 			if c = sl.next(); c == '\x00' {
 				return literalBracket()
@@ -349,8 +356,11 @@ func regexpNext(sb *strings.Builder, sl *stringLexer, mode Mode) error {
 					bsb.WriteString(regexp.QuoteMeta(string(c)))
 				}
 			case '-':
-				if first := bsb.String(); first == "[" || first == "[^" {
+				if first := bsb.String(); first == "[" || first == "[^" || first == "[^/" {
 					// A leading '-' stands for itself, and may start a range.
+					if first == "[^/" {
+						bsb.WriteByte('\\') // or it would form a range with the slash
+					}
 					bsb.WriteByte('-')
 					break
 				}
